@@ -32,7 +32,7 @@ REQUIRE_CLAUSES = ["ctor_requires_columns", "ctor_holds_given_data", "wrap_keeps
                    "add_combines", "concat_rows", "copy_equal", "copy_independent", "new_object_receiver_untouched",
                    "addcols_columns", "keepcols_subset", "dropextra_required_only", "filter_rows",
                    "shuffle_permutation_in_place", "sort_permutation_in_place", "sort_order", "sortcols_required_first",
-                   "chrx_label_doc", "dlc_subsequence", "resid_chrom_median", "flat_doc"]
+                   "chrx_label_doc", "dlc_subsequence", "resid_chrom_median", "flat_doc", "as_series_index"]
 
 # Findings of this module that are not (yet) listed in /verif/known_findings.json (that file belongs to the main
 # session); they are merged into ctx.known at run time so the check reports them as KNOWN-FINDING and exits 0.
@@ -74,17 +74,23 @@ def dec_cell(col, x):
     return int(x)
 
 
+_NP = _PD = None
+
+
+def _libs():
+    global _NP, _PD
+    if _NP is None:
+        import numpy
+        import pandas
+        _NP, _PD = numpy, pandas
+    return _NP, _PD
+
+
 def enc_cell(col, v):
-    import numpy as np
+    np, pd = _libs()
     kind = KINDS.get(col, "int")
-    if v is None or (isinstance(v, float) and v != v):
+    if v is None or v is pd.NA or (isinstance(v, float) and v != v):
         return NANV
-    try:
-        import pandas as pd
-        if v is pd.NA:
-            return NANV
-    except Exception:
-        pass
     if kind == "chrom":
         if isinstance(v, str):
             return NID.get(v, 0)
@@ -120,8 +126,9 @@ def project(obj):
         if not isinstance(df, pd.DataFrame):
             raise TypeError("data is not a DataFrame")
         cols = [str(c) for c in df.columns]
-        colvals = [df.iloc[:, j].tolist() for j in range(len(cols))]
-        rows = [[enc_cell(cols[j], colvals[j][k]) for j in range(len(cols))] for k in range(len(df))]
+        ncol = len(cols)
+        rows = [[enc_cell(cols[j], r[j]) for j in range(ncol)] for r in df.to_numpy(dtype=object).tolist()] if ncol else \
+            [[] for _ in range(len(df))]
         index = []
         for lab in df.index.tolist():
             index.append(int(lab) if isinstance(lab, (int,)) or hasattr(lab, "__index__") else -7777)
@@ -132,9 +139,10 @@ def project(obj):
             meta.append([str(k), val])
         cls = _cls_name(obj)
         dt = []
+        dts = list(df.dtypes)
         for c in REQ[cls]:
             if c in cols:
-                d = df.dtypes.iloc[cols.index(c)]
+                d = dts[cols.index(c)]
                 dt.append("str" if isinstance(d, pd.StringDtype) else str(d))
             else:
                 dt.append("missing")
@@ -288,6 +296,9 @@ def call_event(world, O, ev):
         ret = _ret(t=[[enc_cell(cols[j], val) for j, val in enumerate(tuple(row))] for row in x])
     elif m == "eq":
         ret = _ret(v=[1 if (x == y) else 0])
+    elif m == "as_series":
+        s = x.as_series([dec_cell("zz", v) for v in lit_col("zz", len(x))])
+        ret = _ret(v=[enc_cell("zz", val) for val in s.tolist()], w=_labels_of(s.index))
     elif m == "autosomes":
         if p[0] == 0:
             res = x.autosomes()
@@ -371,12 +382,18 @@ def call_event(world, O, ev):
     return ret, res
 
 
+_PROTO = {}
+
+
 def execute(inp):
     """Run one behaviour on real objects.  inp = {"w": world index (1-based), "world": world, "events": [...]}"""
     import warnings
     warnings.simplefilter("ignore")
     world = inp["world"]
-    O = {name: build_object(st) for name, st in world["init"].items()}
+    key = json.dumps(world["init"], sort_keys=True)
+    if key not in _PROTO:      # the initial objects are built once per process and deep-copied for every behaviour
+        _PROTO[key] = {name: build_object(st) for name, st in world["init"].items()}
+    O = _copy.deepcopy(_PROTO[key])
     seen = {name: project(o) for name, o in O.items()}
     out = [{"m": "init", "recv": "", "arg": "", "res": "", "p": [], "cs": [], "err": "", "ret": _ret(), "alias": False,
             "post": dict(seen)}]
@@ -424,7 +441,7 @@ C5 = ["chromosome", "start", "end", "gene", "log2"]
 
 ALL_OPS = ["new_none", "new_rows", "new_cols", "as_columns", "as_dataframe", "as_rows", "getitem_int", "getitem_col",
            "getitem_cell", "getitem_slice", "getitem_mask", "getitem_none", "getitem_ints", "setitem_int", "setitem_col",
-           "setitem_cell", "setitem_maskcell", "setitem_slice", "setitem_maskrows", "len", "bool", "contains", "iter", "eq",
+           "setitem_cell", "setitem_maskcell", "setitem_slice", "setitem_maskrows", "len", "bool", "contains", "iter", "eq", "as_series",
            "autosomes", "by_chromosome", "by_arm", "coords", "labels", "add", "concat", "copy", "add_columns",
            "keep_columns", "drop_extra_columns", "filter", "shuffle", "sort", "sort_columns", "log2_get", "log2_set",
            "drop_low_coverage", "chr_x_label", "chr_y_label", "chr_x_filter", "residuals", "expect_flat"]
@@ -468,15 +485,29 @@ def worlds():
     W = []
     # 1: small world for the exhaustive length-2 exploration (trimmed menus)
     W.append(_world("small", {
-        "a": _obj("GA", C4, [[2, 5, 9, 1], [1, 3, 7, 2], [2, 1, 3, 1]]),
-        "b": _obj("GA", C4, [[4, 0, 2, 2], [2, 5, 9, 1]], index=[1, 3], meta=("sample_id", "k"))},
+        "a": _obj("GA", C4, [[2, 5, 9, 1], [1, 3, 7, 2], [2, 5, 6, 1]]),          # chr2:5-9 before chr2:5-6: a tie on start
+        "b": _obj("GA", C4, [[4, 0, 2, 2], [13, 5, 9, 1]], index=[1, 3], meta=("sample_id", "k"))},   # chrX, chr1_gl000191_random
+        ops=[m for m in ALL_OPS if m not in ("len", "bool", "contains", "iter", "new_none", "new_cols", "as_columns",
+                                             "setitem_slice", "setitem_maskcell", "as_series")],
         dsnew=[1, 4], dscols=[3], dsas=[1], dsrows=[1, 13], intidx=[0, 9], setidx=[-1], getcols=["start", "nope"], labels=[1, 4],
-        cellcols=["start"], slices=[1, 3], setslices=[1], ints=[[0, 0, 1]], setcols=[[0, "start"], [1, "zz"]], also=[4],
+        cellcols=["start"], slices=[3], setslices=[1], ints=[[0, 0, 1]], setcols=[[0, "start"], [1, "zz"]], also=[4],
         arms=[[2, 1]], coords=[[1, ["gene"]]], addcols=[["zz", "aa"]], keepcols=[["gene", "end", "start", "chromosome"], ["chromosome", "start"]],
         chroms=[2], genes=[1], thr=[2], concat=[1, 2], classes=[1]))
-    # 2: chr-prefixed, unsorted, duplicate rows; second array with non-default labels (as left by a filter)
+    # 2: small copy-number world for the exhaustive length-2 exploration: a bin exactly at the low-coverage threshold,
+    #    a zero-depth bin, three bins on one chromosome (median != mean), X; second array with labels as left by a filter
+    W.append(_world("small-cna", {
+        "a": _obj("CNA", C6, [[1, 3, 7, 1, -120, 8], [4, 0, 4, 2, -128, 24], [1, 0, 2, 1, 6, 0], [1, 8, 9, 2, 40, 16]]),
+        "b": _obj("CNA", C5, [[1, 0, 1, 1, 0], [4, 2, 3, 2, -8]], index=[0, 3], meta=("sample_id", "k"))},
+        ops=["copy", "sort", "shuffle", "filter", "getitem_mask", "getitem_slice", "setitem_int", "add", "concat", "autosomes",
+             "drop_extra_columns", "keep_columns", "log2_get", "log2_set", "drop_low_coverage", "chr_x_label", "chr_y_label",
+             "chr_x_filter", "residuals", "expect_flat", "as_dataframe", "by_chromosome", "setitem_col"],
+        classes=[2], dsnew=[12, 1], slices=[1, 3], intidx=[0, 1], setidx=[0], setcols=[[0, "log2"], [1, "zz"]], also=[4],
+        keepcols=[["chromosome", "start", "end", "log2", "gene"], ["chromosome", "start", "end"]], chroms=[1], genes=[2], thr=[2],
+        concat=[1, 2]))
+    # 3: chr-prefixed, unsorted, duplicate rows, a tie on start with the longer bin first; second array with non-default
+    #    labels (as left by a filter)
     W.append(_world("chr-unsorted-dup", {
-        "a": _obj("GA", C4, [[2, 5, 9, 1], [3, 0, 4, 2], [1, 3, 7, 1], [4, 1, 2, 3], [2, 5, 9, 1]]),
+        "a": _obj("GA", C4, [[2, 5, 9, 1], [3, 0, 4, 2], [1, 3, 9, 2], [1, 3, 7, 1], [4, 1, 2, 3], [2, 5, 9, 1]]),
         "b": _obj("GA", C4, [[6, 0, 1, 2], [1, 3, 7, 1], [2, 1, 3, 2]], index=[1, 4, 6], meta=("sample_id", "k"))}))
     # 3: plain names, no gene column; the other array is blank
     W.append(_world("plain-names", {
@@ -491,8 +522,8 @@ def worlds():
         chroms=[13, 16], also=[16, 6]))
     # 5: copy-number arrays: low-coverage bins, X and Y, depth column; second array filtered, without depth
     W.append(_world("cna", {
-        "a": _obj("CNA", C6, [[2, 5, 9, 1, 4, 80], [4, 0, 4, 2, -128, 24], [1, 3, 7, 1, -120, 0], [5, 1, 2, 3, 2, 8],
-                              [2, 1, 3, 2, -4, 16], [1, 0, 2, 1, 6, 40]]),
+        "a": _obj("CNA", C6, [[2, 5, 9, 1, 4, 80], [4, 0, 4, 2, -128, 24], [1, 3, 7, 1, -120, 8], [5, 1, 2, 3, 2, 8],
+                              [2, 1, 3, 2, -4, 0], [1, 0, 2, 1, 6, 40], [1, 8, 9, 2, 40, 16]]),
         "b": _obj("CNA", C5, [[1, 0, 1, 1, 0], [4, 2, 3, 2, -8]], index=[0, 3])},
         dsas=[5, 12], keepcols=[["chromosome", "start", "end", "log2", "gene"], ["chromosome", "start", "end"]],
         classes=[2], dsnew=[1, 5, 12, 8], dscols=[5, 12]))
@@ -718,13 +749,13 @@ def run(ctx: Ctx):
     r1, ex1 = behaviours_exhaustive(ctx, wpath, all_ids, 1, "len1")
     behs += ex1
     # (thorough: additionally one full-menu world, chosen by the seed)
-    len2_ids = [1] + ([2 + ctx.seed % (len(W) - 1)] if thorough else [])
+    len2_ids = [1, 2] + ([3 + ctx.seed % (len(W) - 2)] if thorough else [])
     r2, ex2 = behaviours_exhaustive(ctx, wpath, len2_ids, 2, "len2")
     behs += ex2
     ctx.notes["exhaustive"] = {"len1_behaviours": len(ex1), "len2_behaviours": len(ex2),
                                "len2_worlds": [W[k - 1]["name"] for k in len2_ids]}
     # (b) simulated longer behaviours
-    nsim = 6000 if thorough else 500
+    nsim = 6000 if thorough else 1200
     sim = behaviours_simulated(ctx, wpath, all_ids, 4, nsim, "len4")
     sim3 = behaviours_simulated(ctx, wpath, all_ids, 3, nsim // 2, "len3")
     behs += sim + sim3
